@@ -149,6 +149,8 @@ class Session(BusSession):
             m = R.method_return(s, 4242, dest, body, flags=flags)
         else:
             m = R.error(s, 4242, 't.Err', dest, body, flags=flags)
+        if self.tok % 2:
+            m.endian = 'B'      # every second message travels in the byte order that is foreign to this host: the bus relays it as it is
         return m, tok
 
     def build_name_op(self, op):
